@@ -35,6 +35,7 @@ COAXIAL_KINDS = ["sphere", "sphere", "capsule", "cylinder", "ellipsoid", "box"]
 # arms of mpr.py observed by the worker (harness/impl/narrowp.py)
 ALL_ARMS = ["centers_coincide", "discover_ORIGIN_OUTSIDE_PORTAL", "discover_ORIGIN_ON_V1", "discover_ORIGIN_ON_V0V1_SEGMENT",
             "discover_PORTAL_WAS_BUILT", "discover_swapped_v1v2", "discover_kept_v1v2", "discover_iter_continue", "discover_iter_done",
+            "discover_iter_replace_v2", "discover_iter_replace_v1",
             "refine_true", "refine_false", "reach_tolerance_true", "reach_tolerance_false",
             "expand_replace_v1_a", "expand_replace_v1_b", "expand_replace_v2", "expand_replace_v3",
             "origin_on_v1", "origin_on_v0v1_segment", "pen_info_regular", "pen_info_touching",
@@ -47,7 +48,133 @@ def make_case_seeded(arg):
     return make_case(random.Random(seed), tier, k)
 
 
+N_REGULAR = dict(quick=240, thorough=1600)
+N_FEW = dict(quick=60, thorough=400)
+MPR_EPS = 2.0 ** -52        # distance3d.utils.EPSILON
+
+
+def world_vertices(spec):
+    """float vertices of a hull / mesh / box in world coordinates and the point mpr uses as its centre (Collider.center())"""
+    if spec["kind"] == "hull":
+        V = np.array(spec["vertices"], dtype=float)
+        return V, V.mean(axis=0)
+    if spec["kind"] == "mesh":
+        T = np.array(spec["pose"], dtype=float)
+        V = np.array(spec["vertices"], dtype=float) @ T[:3, :3].T + T[:3, 3]
+        return V, V.mean(axis=0)
+    V = np.array([npn.vfloat(v) for v, _ in npn.poly_vertices(spec)])
+    return V, np.array(spec["pose"], dtype=float)[:3, 3]
+
+
+def discovery_first_arm(s1, s2):
+    """harness-side float replica of mpr._discover_portal up to the first call of _iterate_discover_portal, for two
+    polytopes: which arm that call takes ('replace_v2' = origin outside plane v1-v0-v3, 'replace_v1' = origin outside plane
+    v3-v0-v2, 'none' = portal complete) or an earlier exit.  Only used to STEER the generator towards every arm."""
+    V1, c1 = world_vertices(s1)
+    V2, c2 = world_vertices(s2)
+
+    def sup(d):
+        return V1[int(np.argmax(V1 @ d))] - V2[int(np.argmax(V2 @ (-d)))]
+    v0 = c1 - c2
+    if not np.any(v0 != 0.0):
+        v0 = v0 + np.array([10.0 * MPR_EPS, 0.0, 0.0])
+    d = -v0 / np.linalg.norm(v0)
+    v1 = sup(d)
+    if np.any(v1 != 0.0) and float(v1 @ d) < MPR_EPS:
+        return "outside"
+    n = np.cross(v0, v1)
+    if float(n @ n) < MPR_EPS:
+        return "segment"
+    n = n / np.linalg.norm(n)
+    v2 = sup(n)
+    if float(v2 @ n) < MPR_EPS:
+        return "outside"
+    sd = np.cross(v1 - v0, v2 - v0)
+    ln = float(np.linalg.norm(sd))
+    if ln == 0.0:
+        return "flat"
+    sd = sd / ln
+    if float(sd @ v0) > 0.0:
+        v1, v2 = v2, v1
+        sd = -sd
+    v3 = sup(sd)
+    if float(v3 @ sd) < MPR_EPS:
+        return "outside"
+    if float(np.cross(v1, v3) @ v0) < MPR_EPS:
+        return "replace_v2"
+    if float(np.cross(v3, v2) @ v0) < MPR_EPS:
+        return "replace_v1"
+    return "none"
+
+
+def few_collider(rng, kind, nv, size):
+    """tetrahedron / hull or mesh with nv = 4 .. 8 vertices drawn from a box with aspect ratios down to 0.15 (needles,
+    slivers, generic) / box, randomly oriented"""
+    R = nw.rand_rotation(rng, "random")
+    c = [rng.uniform(-1, 1) for _ in range(3)]
+    asp = rng.choice([[1.0, 0.2, 0.2], [1.0, 1.0, 0.15], [1.0, rng.uniform(0.2, 1.0), rng.uniform(0.2, 1.0)]])
+    if kind == "box":
+        return dict(kind="box", pose=nw.pose_of(R, c), size=[size * a for a in asp])
+    from scipy.spatial import ConvexHull
+    for _ in range(100):
+        P = np.array([[rng.uniform(-0.5, 0.5) * size * a for a in asp] for _ in range(nv)])
+        try:
+            hv = ConvexHull(P).vertices
+        except Exception:
+            continue
+        P = P[sorted(hv)]
+        if len(P) >= 4 and abs(np.linalg.det(P[1:4] - P[0])) > 1e-3 * size ** 3 * asp[1] * asp[2] or len(P) > 4:
+            break
+    else:
+        raise RuntimeError("no proper few-vertex polytope")
+    if kind == "hull":
+        return dict(kind="hull", vertices=(P @ R.T + np.array(c)).tolist())
+    return dict(kind="mesh", pose=nw.pose_of(R, c), vertices=P.tolist())
+
+
+def gen_fewvert(rng, tier):
+    """overlapping pair of polytopes with FEW vertices (tetrahedra, hulls and meshes with 5 .. 8 vertices, boxes) in generic
+    poses: the support points jump between far-apart vertices, so portal discovery has to replace portal vertices.  The
+    stream is balanced over the arms of the first _iterate_discover_portal call (replace v2 / replace v1 / portal complete):
+    a target arm is drawn first and candidates are redrawn (at most 60 times) until the harness' float replica of the
+    discovery predicts that arm."""
+    target = rng.choice(["replace_v2", "replace_v2", "replace_v1", "none"])
+    best = None
+    for attempt in range(60):
+        k1 = rng.choice(["hull", "hull", "hull", "mesh", "mesh", "box"])
+        k2 = rng.choice(["hull", "hull", "hull", "mesh", "mesh", "box"])
+        nv1, nv2 = rng.choice([4, 4, 4, 5, 6, 7, 8]), rng.choice([4, 4, 4, 5, 6, 7, 8])
+        sz = 10 ** rng.uniform(-0.3, 1.0)
+        s1 = few_collider(rng, k1, nv1, sz)
+        s2 = few_collider(rng, k2, nv2, sz * rng.choice([0.1, 0.3, 1.0, 1.0, 2.0]))
+        f = min(nw.feature_size(s1), nw.feature_size(s2))
+        g = max(nw.feature_size(s1), nw.feature_size(s2))
+        off = np.array([rng.gauss(0, 1) for _ in range(3)]) * rng.choice([0.05, 0.15, 0.3, 0.6]) * g
+        c1 = world_vertices(s1)[1]
+        c2 = world_vertices(s2)[1]
+        s2 = nw.translate_spec(s2, c1 - c2 + off)
+        L = nw.scene_scale([s1, s2])
+        arm = discovery_first_arm(s1, s2)
+        if arm != target and best is not None:
+            continue
+        a, b, dist = npn.closest_pair(s1, s2)
+        if dist > 1e-9 * L:
+            continue
+        meta = dict(stream="fewvert", kinds=[k1, k2], n_vertices=[len(world_vertices(s1)[0]), len(world_vertices(s2)[0])],
+                    target_arm=target, predicted_arm=arm, L=L)
+        best = (s1, s2, meta)
+        if arm == target:
+            break
+    if best is None:
+        raise RuntimeError("could not generate an overlapping pair")
+    return best
+
+
 def make_case(rng, tier, k):
+    if k >= N_REGULAR.get(tier, 240):
+        s1, s2, meta = gen_fewvert(rng, tier)
+        meta["polytopes"] = True
+        return dict(c1=s1, c2=s2, ops=[dict(fn="mpr_pen")], meta=meta)
     u = rng.random()
     if u < 0.12:
         # not (or barely) overlapping: plane gap in {0, +-1e-9 .. 1}
@@ -139,6 +266,29 @@ def point_dist(spec, p):
     return d, a
 
 
+def portal_witness_problem(s1, s2, fp, L):
+    """hypotheses of Proofs/Mpr.v (mpr_contact_in_both_partial) on the portal the query ended with: every live row is
+    v[i] = v1[i] - v2[i] with v1[i] a point of the first and v2[i] a point of the second collider (float oracle, 1e-6 L).
+    Returns a description of the first violated one, or None."""
+    if not fp or fp.get("state") not in ("ORIGIN_ON_V1", "ORIGIN_ON_V0V1_SEGMENT", "PORTAL_WAS_BUILT"):
+        return None
+    rows = range(4) if fp["state"] == "PORTAL_WAS_BUILT" else range(2)
+    v, v1, v2 = (np.array(fp[k], dtype=float) for k in ("v", "v1", "v2"))
+    for k in rows:
+        if not (np.all(np.isfinite(v[k])) and np.all(np.isfinite(v1[k])) and np.all(np.isfinite(v2[k]))):
+            return f"portal row {k} is not finite"
+        dev = float(np.max(np.abs(v[k] - (v1[k] - v2[k]))))
+        if dev > 1e-12 * L:
+            return f"portal row {k}: v differs from v1 - v2 by {dev:.3g}"
+        d1, _ = point_dist(s1, v1[k])
+        if d1 > 1e-6 * L:
+            return f"portal row {k}: witness v1 = {v1[k].tolist()} is {d1:.3g} away from the first collider"
+        d2, _ = point_dist(s2, v2[k])
+        if d2 > 1e-6 * L:
+            return f"portal row {k}: witness v2 = {v2[k].tolist()} is {d2:.3g} away from the second collider"
+    return None
+
+
 def prepare(arg):
     i, case, r = arg
     try:
@@ -210,6 +360,7 @@ def prepare(arg):
             except npn.TreeFail:
                 pass
         out["refute"] = ref
+        out["portal_problem"] = portal_witness_problem(s1, s2, r.get("final_portal"), L)
         return out
     except Exception as e:  # noqa
         import traceback
@@ -299,7 +450,9 @@ def run(tier, seed, replay=None):
     R = cm.Run(PID, "translation_validation", tier, seed)
     R.cov["rule"] = ("case = ordered pair of colliders (10 kinds, optional Margin); streams: depth / lattice / deep / nested overlapping pairs "
                      "(as in C07; overlap pre-checked by the harness' own float GJK), concentric (centres coincide exactly), coaxial (centres and support points on one line, overlap 0 .. deep), lattice_boxes (axis-aligned boxes / cube meshes / cube hulls on a 0.25 grid), touch (lattice colliders in exact touching contact), gap (plane gap in "
-                     "{0, +-1e-9 .. 100}: touching, barely overlapping, separated); distinct by canonical hash; non-trivial = mpr_penetration "
+                     "{0, +-1e-9 .. 100}: touching, barely overlapping, separated), fewvert (20% of the cases: tetrahedra, 5-8-vertex hulls / meshes, boxes "
+                     "with aspect ratios down to 0.15 in generic overlapping poses, balanced over the arms of portal discovery's replacement step "
+                     "by redrawing against a harness-side float replica of the discovery); distinct by canonical hash; non-trivial = mpr_penetration "
                      "reported an intersection (a depth, direction and position exist) and that result was judged by pen_cert")
     R.assumptions += [
         "the verdict per input is a Coq theorem (Props/C08.v) applied to the implementation's output; universality over inputs comes from generation",
@@ -317,7 +470,7 @@ def run(tier, seed, replay=None):
         if corpus.exists():
             for f in sorted(corpus.glob("*.json")):
                 cases.append(json.loads(f.read_text())["case"])
-        n = 240 if tier == "quick" else 1600
+        n = N_REGULAR.get(tier, 240) + N_FEW.get(tier, 60)       # cases with k >= N_REGULAR[tier] come from the `fewvert` stream
         seeds = [(R.rng.getrandbits(64), tier, k) for k in range(n)]
         cases += npn.par_map(PID, "c08", "make_case_seeded", seeds, tag="gen")
     for c in cases:
@@ -367,6 +520,13 @@ def run(tier, seed, replay=None):
         judged[pz["i"]] = pz
         exprs.append(pz["expr"])
         slots.append(pz["i"])
+    portal_checked = [pz for pz in judged.values() if "portal_problem" in pz]
+    portal_bad = [pz for pz in portal_checked if pz["portal_problem"]]
+    R.cov["final_portal_witness_rows"] = dict(checked=len(portal_checked), violated=len(portal_bad))
+    for pz in portal_bad[:5]:
+        c = cases[pz["i"]]
+        R.corr_broken.append(f"final portal of case {pz['i']} ({c['meta'].get('stream')}, {c['meta'].get('kinds')}) violates the hypotheses of "
+                             f"mpr_contact_in_both_partial: {pz['portal_problem']}")
     verdicts = bools(R, exprs)
     stats = dict(pen_cert_proved=0, pen_cert_proved_on_retry=0, not_intersecting_proved=0, ambiguous=0,
                  failures=0, refutations_certified=0)
